@@ -58,6 +58,9 @@ for diff in sorted(glob.glob(src + "/change*.diff")):
     a = sh("git -C %s apply %s" % (wt, diff))
     if a.returncode != 0:
         res["error"] = "patch does not apply: " + a.stderr[-300:]; results.append(res); print(res); continue
+    # the cmake build does not track C files #included by a .stub: touch the stubs next to changed lib C files
+    for f in re.findall(r"^\+\+\+ b/(lib/\S+\.c)$", open(diff).read(), re.M):
+        sh("touch %s/%s/*.stub" % (wt, os.path.dirname(f)))
     ok, log = build()
     res["builds"] = ok
     if ok:
